@@ -326,6 +326,25 @@ impl StorageEngine {
         }
     }
     
+    /// Value and expiry of a key as of one instant, for snapshots. Both are read under a single
+    /// acquisition of the shard lock: a separate get() and ttl() can straddle a write or the key's
+    /// expiry and yield a pair the key never had. The expiry is returned as a wall-clock deadline,
+    /// so it does not drift with the time the caller takes to write it out.
+    pub fn get_for_snapshot(&self, db: DatabaseIndex, key: &[u8]) -> Result<Option<(Value, Option<std::time::SystemTime>)>> {
+        let shard = self.get_shard(db, key)?;
+        let shard_guard = shard.read().unwrap();
+        
+        match shard_guard.data.get(key) {
+            Some(stored_value) if !stored_value.is_expired() => {
+                let expiry = stored_value.metadata.expires_at.map(|at| {
+                    std::time::SystemTime::now() + at.saturating_duration_since(Instant::now())
+                });
+                Ok(Some((stored_value.value.clone(), expiry)))
+            }
+            _ => Ok(None),
+        }
+    }
+    
     /// Get string value
     pub fn get_string(&self, db: DatabaseIndex, key: &[u8]) -> Result<Option<Vec<u8>>> {
         match self.get(db, key)? {
